@@ -26,7 +26,7 @@ THEOREMS = [NS + t for t in (
     'C09_inv', 'C09_inv_history', 'C09_init', 'C09_never_stale', 'C09_retry', 'C09_dependant_fails',
     'C09_retry_after_failure', 'C09_unrelated', 'C09_cone_has_value', 'C09_unrelated_cone', 'C09_repair',
     'C09_repair_fresh', 'C09_repaired_balanced', 'C09_asWritten_not_balanced', 'C09_assert_counterexample',
-    'C09_demo_repaired', 'semOf_local', 'eqvR_sound', 'C09_iter_restored', 'C09_iter_retry_partial',
+    'C09_demo_repaired', 'semOf_local', 'eqvR_sound', 'C09_iter_restored', 'C09_iter_retry_partial', 'C09_iter_dependant_fails', 'C09_iter_dependant_retry',
     'C09_iter_wip_counterexample', 'C09_iter_demo_repaired')]
 DESIGN_REF = 'DESIGN.md §7 C09'
 RULE = ('deterministic core: fixed workbooks (chain leaf/mid, range, CSE array, captured-message, cycle) x every formula '
